@@ -193,7 +193,9 @@ def _module_consts(f: FuncInfo) -> dict[str, object]:
 
 def _fold_generator(gen: FuncInfo, env: dict[str, object], n: int) -> list[object] | None:
     out: list[object] = []
-    body = [s for s in gen.node.body if not (isinstance(s, ast.Expr) and isinstance(s.value, ast.Constant))]
+    from .common import effective_body
+
+    body = effective_body(gen.node.body)
     for st in body:
         if len(out) >= n:
             break
